@@ -3,7 +3,7 @@
  "name": "block_alloc_stats_range_r1",
  "props": ["C09"],
  "level": "U",
- "tier": "wip",
+ "tier": "quick",
  "harness": "h_range",
  "defines": ["CRB=0"],
  "enforce": ["ext2fs_block_alloc_stats_range"],
@@ -26,7 +26,7 @@
  "name": "block_alloc_stats_range_r16",
  "props": ["C09"],
  "level": "U",
- "tier": "wip",
+ "tier": "quick",
  "harness": "h_range",
  "defines": ["CRB=4"],
  "enforce": ["ext2fs_block_alloc_stats_range"],
@@ -42,7 +42,7 @@
  "name": "block_alloc_stats_range_counts_r1_alloc",
  "props": ["C09"],
  "level": "U",
- "tier": "wip",
+ "tier": "quick",
  "harness": "h_range",
  "defines": ["CRB=0", "COUNTS=1", "SIGN=1"],
  "enforce": ["ext2fs_block_alloc_stats_range"],
@@ -60,7 +60,7 @@
  "name": "block_alloc_stats_range_counts_r1_free",
  "props": ["C09"],
  "level": "U",
- "tier": "wip",
+ "tier": "quick",
  "harness": "h_range",
  "defines": ["CRB=0", "COUNTS=1", "SIGN=-1"],
  "enforce": ["ext2fs_block_alloc_stats_range"],
@@ -78,7 +78,7 @@
  "name": "block_alloc_stats_range_counts_r16_alloc",
  "props": ["C09"],
  "level": "U",
- "tier": "wip",
+ "tier": "quick",
  "harness": "h_range",
  "defines": ["CRB=4", "COUNTS=1", "SIGN=1"],
  "enforce": ["ext2fs_block_alloc_stats_range"],
@@ -96,7 +96,7 @@
  "name": "block_alloc_stats_range_counts_r16_free",
  "props": ["C09"],
  "level": "U",
- "tier": "wip",
+ "tier": "quick",
  "harness": "h_range",
  "defines": ["CRB=4", "COUNTS=1", "SIGN=-1"],
  "enforce": ["ext2fs_block_alloc_stats_range"],
